@@ -74,6 +74,22 @@ struct Run : ContBase {
         if (!ok) c.fail(FUNC, "hashtbl:put-failed", "put(%s) returned false, errno=%d", hexs(k).c_str(), errno);
         m[k] = e;
     }
+    bool burst_case = false; size_t burst_ctr = 0, U = 0;
+    void do_burst() {
+        size_t k = (size_t)s.range(50, 500), base = burst_ctr; burst_ctr += k;
+        c.op("burst: putstr of %zu fresh keys n=%zu", k, m.size());
+        for (size_t i = 0; i < k; i++) {
+            std::string key = "burst" + std::to_string(base + i), val = "v" + std::to_string((base + i) * 7919u);
+            Buf *kb = Buf::cstr(key), *vb = Buf::cstr(val);
+            errno = poison;
+            bool ok = qhashtbl_putstr(t, kb->c(), vb->c());
+            delete kb; delete vb;
+            if (!ok) c.fail(FUNC, "hashtbl:put-failed", "put number %zu of a burst returned false, errno=%d", i + 1, errno);
+            m[key] = Ent{val + std::string(1, '\0'), true};
+            if (universe.size() < 4000) universe.push_back(key);     // later gets / removes / replacements reach the burst keys too
+        }
+        U = universe.size();
+    }
     // a put whose data pointer lies inside the table's own copy of a stored value (obtained with
     // newmem=false), under the same key or another one: the stored bytes become that suffix
     void do_put_alias(const std::string &k, const std::string &other) {
@@ -216,7 +232,7 @@ struct Run : ContBase {
         static const size_t fixed[] = {1, 2, 3, 5, 16, 0};
         range = rk < 6 ? fixed[rk] : (size_t)s.range(1, 64);
         int usz = (int)s.pick({3, 3, 1});
-        size_t U = usz == 0 ? (size_t)s.range(3, 8) : usz == 1 ? (size_t)s.range(8, 40) : (size_t)s.range(40, 200);
+        U = usz == 0 ? (size_t)s.range(3, 8) : usz == 1 ? (size_t)s.range(8, 40) : (size_t)s.range(40, 200);
         for (size_t i = 0; i < U; i++) universe.push_back(gen_key());
         c.op("hashtbl(range=%zu, universe=%zu)", range, U);
         vf_ledger_on = 1;
@@ -225,10 +241,13 @@ struct Run : ContBase {
         t = qhashtbl(range, hopt);
         if (!t) c.fail(FUNC, "hashtbl:ctor", "qhashtbl(%zu,0) returned NULL", range);
         int maxops = c.tier ? 3000 : 500, ops = 0;
+        burst_case = s.chance(1, 15);                      // key counts in the hundreds (long chains, many keys per slot), not only the small universe
+        if (burst_case) { c.tag("case_with_burst_puts"); maxops = 100; }
         while (!s.exhausted() && ops++ < maxops) {
-            int o = (int)s.pick({30, 16, 22, 2, 1, 6, 1, 2, 2, 2});
+            int o = (int)s.pick({30, 16, 22, 2, 1, 6, 1, 2, 2, 2, burst_case ? 2 : 0});
             const char *what = "op";
             switch (o) {
+                case 10: do_burst(); what = "burst"; break;
                 case 0: do_put(universe[s.range(0, (long)U - 1)]); what = "put"; break;
                 case 1: do_get(s.chance(1, 8) ? gen_key() : universe[s.range(0, (long)U - 1)]); what = "get"; break;
                 case 2: do_remove(s.chance(1, 10) ? gen_key() : universe[s.range(0, (long)U - 1)]); what = "remove"; break;
